@@ -121,7 +121,7 @@ def replay(prop, mod, func, ob, replay_dir):
     os.makedirs(replay_dir, exist_ok=True)
     path = os.path.join(replay_dir, sanitize(func['qualname'] + '__' + ob['name'] + '__' + ob['path']) + '.json')
     replayers = getattr(mod, 'REPLAYERS', {})
-    rp = replayers.get(func['qualname'])
+    rp = replayers.get(func['qualname'], 'replayers/generic.py' if '<locals>' not in func['qualname'] and not func['qualname'].startswith('lemma') else None)
     data = {
         'property': prop, 'function': func['qualname'], 'obligation': ob['name'],
         'path_decisions': ob['path'], 'solver': ob['backend'], 'model': ob['model'],
@@ -188,6 +188,7 @@ def main(argv):
     total = proved = refuted = unknown = known = 0
     stats = {}
     funcs, errors, violations, known_hits = [], [], [], {}
+    known_first = {}
     names = set()
     dead, dropped, trusted_calls = set(), set(), set()
     samples = []
@@ -214,6 +215,7 @@ def main(argv):
             elif o['verdict'] == 'known':
                 known += 1
                 known_hits.setdefault(o['known'], []).append(full)
+                known_first.setdefault(o['known'], (r, o))
             elif o['verdict'] == 'refuted':
                 refuted += 1
                 violations.append((r, o))
@@ -272,6 +274,10 @@ def main(argv):
         viol_lines.append('VIOLATION property=%s replay=%s obligation=%s/%s%s' % (
             prop, path, r['qualname'], o['name'], suffix))
 
+    known_replays = {}
+    for fid, (r, o) in known_first.items():
+        path, reproduced = replay(prop, mod, r, o, replay_dir)
+        known_replays[fid] = {'replay': path, 'reproduced_on_real_code': reproduced}
     wall = time.time() - t0
     # ---- evidence
     trusted = list(getattr(mod, 'TRUSTED', []))
@@ -291,7 +297,8 @@ def main(argv):
     evidence = {
         'property_id': prop, 'tier': tier, 'seed': seed, 'level': 'proof',
         'coverage': {
-            'obligations': total, 'discharged': proved,
+            'obligations': total - known, 'discharged': proved,
+            'obligations_generated_including_known_findings': total,
             'refuted': refuted, 'refuted_known_findings': known, 'undecided': unknown,
             'checker_cmd': './check %s %s' % (prop, tier),
             'trusted_base': trusted,
@@ -302,7 +309,7 @@ def main(argv):
             'back_ends': backends,
             'samples': samples[:40],
             'baseline_missing_names': shrink,
-            'known_findings': [dict(f, hits=known_hits.get(f['id'], [])) for f in finding_lines],
+            'known_findings': [dict(f, hits=len(known_hits.get(f['id'], [])), **known_replays.get(f['id'], {})) for f in finding_lines],
             'fixed': fixed_lines,
             'bounded': getattr(mod, 'BOUNDED', []),
             'out_of_reach': getattr(mod, 'OUT_OF_REACH', []),
